@@ -126,6 +126,14 @@ inductive ZeroMode where
   | other (s : String)
   deriving DecidableEq, Repr, Inhabited
 
+/-- how cfg.go treats a receive `<-c` that is the source of a declaration / an assignment -/
+inductive RecvMode where
+  | legacy     -- received in place of the destination: `var v T = <-c` gives v the element type, `v = <-c` is not checked
+  | guarded    -- 3e34c55: the in-place shortcut is skipped when the types differ; `v = <-c` treated as the other unary operators
+  | plain      -- 177a151: no shortcut, the received value is stored in its own slot and assigned like any other value
+  | other (s : String)
+  deriving DecidableEq, Repr, Inhabited
+
 structure TcFacts where
   ops : OpFacts
   /-- cfg.go `case landExpr` / `case lorExpr` call `check.logicalExpr(n)` and leave on its error -/
@@ -158,11 +166,13 @@ structure TcFacts where
   /-- cfg.go `case indexExpr`: the operand must support indexing (kind test before the element type is taken,
       `!isGeneric(t)` for a function, `n.typ == nil` before `sc.add`) -/
   indexOperandChecked : Bool
-  /-- cfg.go assignStmt, "assign by reading from a receiving channel": skipped when `dest.typ.id() != src.typ.id()` -/
-  recvDeclKeepsType : Bool
-  /-- cfg.go unaryExpr, `v = <op> x` shortcut: the "destination is an interface" test applies to a receive too
-      (no `n.action != aRecv &&`) -/
-  recvAssignChecked : Bool
+  /-- cfg.go assignStmt, the case "assign by reading from a receiving channel" (`src.action == aRecv && …`):
+      present without / with the `dest.typ.id() != src.typ.id()` exit, or absent -/
+  recvDecl : RecvMode
+  /-- cfg.go unaryExpr, `v = <op> x` shortcut (`n.anc.kind == assignStmt && n.anc.action == aAssign …`): a receive
+      escapes the interface-destination test (`n.action != aRecv &&` inside), is treated like the other operators,
+      or is excluded from the shortcut (`&& n.action != aRecv` in the case expression) -/
+  recvAssign : RecvMode
   /-- cfg.go callExpr: `check.callValue(n)` -/
   callValueChecked : Bool
   /-- typecheck.go conversion: a typed constant converted to a numeric type must be representable
@@ -703,9 +713,18 @@ def assignY (T : TcFacts) (decl : Bool) (sh : Shape) (dst : Ty) (x : Opnd) : Res
   | .recv =>
     -- "assign by reading from a receiving channel": `dest.typ = src.typ`, the variable took the element type;
     -- since 3e34c55 the shortcut is skipped when the two types differ, and `v = <-c` is treated as the other
-    -- unary operators are
-    if decl then do assignmentY T.ops x dst; .ok (if T.recvDeclKeepsType then dst else x.ty)
-    else if T.recvAssignChecked then shortcut else .ok dst
+    -- unary operators are; since 177a151 there is no shortcut at all: a receive is assigned like any other value
+    if decl then
+      (match T.recvDecl with
+       | .legacy => do assignmentY T.ops x dst; .ok x.ty
+       | .guarded | .plain => do assignmentY T.ops x dst; .ok dst
+       | .other _ => .abstain)
+    else
+      (match T.recvAssign with
+       | .legacy => .ok dst
+       | .guarded => shortcut
+       | .plain => do assignmentY T.ops x dst; .ok dst
+       | .other _ => .abstain)
   | _ => if decl then do assignmentY T.ops x dst; .ok dst else shortcut
 
 def defineY (T : TcFacts) (x : Opnd) : Res Ty :=
